@@ -2,6 +2,7 @@ package server
 
 import (
 	"context"
+	"net"
 	"sync"
 	"time"
 
@@ -156,6 +157,14 @@ type rawHandler interface {
 	ServeRaw(w middleware.Transport, raw []byte, readTime time.Time) bool
 }
 
+// sourceAdmitter is the optional admission contract: a handler that can
+// say whether a source may be answered at all. The engines consult it
+// before an in-place rejection, the one reply they build without the
+// handler; a handler without the interface (test stubs) admits everyone.
+type sourceAdmitter interface {
+	AdmitsSource(addr net.Addr) bool
+}
+
 // inlineRawHandler is the optional fast-path contract: a handler that can
 // run a query on the transport reader without blocking, handing off what
 // needs a worker. Engines type-assert it once at construction and consult
@@ -185,6 +194,10 @@ var (
 	_ strictSlots = (*udpJob)(nil)
 	_ strictSlots = (*tcpJob)(nil)
 )
+
+// The same silence applies to the admission contract: were Server to stop
+// matching it, the engines would answer denied sources again.
+var _ sourceAdmitter = (*Server)(nil)
 
 // ServeRaw is the single raw-transport ingress. An eligible packet on a
 // job transport enters the chain as a wire-born request on the job carrier
